@@ -132,6 +132,20 @@ def jobs(tier):
             js.append({'name': 'tags3 n=%s l=%s' % (nls, lls), 'harness': (H, 'h_tags'),
                        'params': {'name_lens': list(nls), 'cont_lens': [1, 1, 1], 'line_lens': list(lls), 'le': b'\r\n'},
                        'split': 8})
+    # whole files (real preprocess): which directive's output a listening tag captures -- the next one that PRODUCES output, be
+    # it empty (a command that prints nothing, an empty included file); directives without output are skipped
+    for second in ('run', 'include f', 'write', 'empty', 'temp', 'after f'):
+        js.append({'name': 'file: tag A / %s / text using A' % second, 'harness': ('props.c01', 'h_conform'),
+                   'params': {'nlines': 3, 'menu_name': 'small', 'fixed': ['tag A', second, 'tagtext'], 'le_choices': (b'\n',), 'inc_len': 1,
+                              'out_len': 1, 'final_newline': True}})
+    for second in ('empty', 'after f', 'temp'):
+        for third in ('run', 'include f'):
+            js.append({'name': 'file: tag A / %s / %s / text using A' % (second, third), 'harness': ('props.c01', 'h_conform'),
+                       'params': {'nlines': 4, 'menu_name': 'small', 'fixed': ['tag A', second, third, 'tagtext'], 'le_choices': (b'\n',),
+                                  'inc_len': 1, 'out_len': 1, 'final_newline': True}})
+    js.append({'name': 'file: tag A / run / tag AB / ...', 'harness': ('props.c01', 'h_conform'),
+               'params': {'nlines': 4, 'menu_name': 'small', 'fixed': ['tag A', 'run', 'tag AB'], 'le_choices': (b'\n',), 'inc_len': 1, 'out_len': 1,
+                          'final_newline': True}, 'split': 4})
     for n in (range(0, 5) if quick else range(0, 7)):
         for le in les:
             for force in (False, True):
@@ -142,7 +156,8 @@ def jobs(tier):
 
 BOUNDS = {
     'quick': '1-3 tags, names 1-2 bytes over {A,B}, contents 0-2 bytes over {A,B,LF,CR}, target lines 0-4 bytes over {A,B,x}, '
-             'second injection line, every HashMap iteration order; replace_line_ending on 0-4 bytes',
+             'second injection line, every HashMap iteration order; replace_line_ending on 0-4 bytes; whole files tag / directive / text over '
+             'the small line menu (command stdout and included file of 0-1 symbolic bytes: empty outputs included)',
     'thorough': '1-3 tags, names 1-2 bytes, contents 0-3 bytes, lines 0-6 bytes, every iteration order; replace_line_ending 0-6 bytes',
 }
 ASSUMPTIONS = ['D1: CR occurs only immediately before LF in stored contents', 'D6: tag names are non-empty',
@@ -154,6 +169,9 @@ def replay(native, v):
     d = v['data']
     model = d['model']
     cc = ConcreteCtx()
+    if d['op'] == 'pp':
+        from . import c01
+        return c01.replay(native, v)
     if d['op'] == 'rle':
         s = bytes(model[x] for x in d['s'])
         out = native.ask('replace_line_ending %s %s %d' % (hexs(s), hexs(bytes(d['le'])), 1 if d['force'] else 0))
